@@ -6,7 +6,7 @@ use anyhow::Result;
 use proc_macro2::TokenStream;
 
 use super::common::{Codegen, CodegenSettings, FieldDescriptor};
-use crate::grammar::{Choice, Grammar, Grammar_rules, IncludeRule};
+use crate::grammar::{Choice, DelimitedExpression, Grammar, Grammar_rules, IncludeRule};
 
 impl Codegen for IncludeRule {
     fn generate_code_spec(
@@ -48,4 +48,66 @@ impl IncludeRule {
             })?
             .definition)
     }
+}
+
+fn collect_includes<'a>(choice: &'a Choice, out: &mut Vec<&'a str>) {
+    for sequence in &choice.choices {
+        for part in &sequence.parts {
+            collect_includes_in_part(part, out);
+        }
+    }
+}
+
+fn collect_includes_in_part<'a>(part: &'a DelimitedExpression, out: &mut Vec<&'a str>) {
+    match part {
+        DelimitedExpression::Group(g) => collect_includes(&g.body, out),
+        DelimitedExpression::Optional(o) => collect_includes(&o.body, out),
+        DelimitedExpression::Closure(c) => collect_includes(&c.body, out),
+        DelimitedExpression::NegativeLookahead(l) => collect_includes_in_part(&l.expr, out),
+        DelimitedExpression::PositiveLookahead(l) => collect_includes_in_part(&l.expr, out),
+        DelimitedExpression::IncludeRule(i) => out.push(&i.rule),
+        _ => (),
+    }
+}
+
+/// Rules that include each other (`A = >A;`, `A = >B; B = >A;`) would make the generator recurse
+/// forever. Reject them up front.
+pub fn check_include_cycles(grammar: &Grammar) -> Result<()> {
+    fn definition<'a>(grammar: &'a Grammar, name: &str) -> Option<&'a Choice> {
+        grammar.rules.iter().find_map(|r| match r {
+            Grammar_rules::Rule(r) if r.name == name => Some(&r.definition),
+            _ => None,
+        })
+    }
+    fn visit<'a>(
+        grammar: &'a Grammar,
+        name: &'a str,
+        in_progress: &mut Vec<&'a str>,
+        done: &mut Vec<&'a str>,
+    ) -> Result<()> {
+        if done.contains(&name) {
+            return Ok(());
+        }
+        if in_progress.contains(&name) {
+            anyhow::bail!("Rule {name} includes itself (directly or through other rules)");
+        }
+        if let Some(definition) = definition(grammar, name) {
+            in_progress.push(name);
+            let mut included = Vec::new();
+            collect_includes(definition, &mut included);
+            for rule in included {
+                visit(grammar, rule, in_progress, done)?;
+            }
+            in_progress.pop();
+        }
+        done.push(name);
+        Ok(())
+    }
+    let mut done = Vec::new();
+    for rule in &grammar.rules {
+        if let Grammar_rules::Rule(rule) = rule {
+            visit(grammar, &rule.name, &mut Vec::new(), &mut done)?;
+        }
+    }
+    Ok(())
 }
